@@ -691,6 +691,16 @@ def values(spec, mat: Materialised, *, budget: int = 3, json64: bool = False, ma
                 pass
         if not alts:
             raise _Exhausted()
+        if any(strip(c) == S("str") for c in spec["a"]):
+            # a union with a `str` member: strings that are the text of another member's value ("5" next to int, an ISO date
+            # next to date) are values of the str member - and the ones a union is most likely to hand to the wrong member
+            for c in spec["a"]:
+                sc = strip(c)
+                if sc["k"] == "scalar" and sc["t"] in ("int", "float", "Decimal", "Fraction", "UUID", "date", "datetime", "time", "timedelta", "bool"):
+                    try:
+                        alts.append(V(c).map(lambda x, sc=sc: str(plain_wire(sc, x, mat))))
+                    except _Exhausted:
+                        pass
         return st.one_of(*alts)
     if k == "class":
         C = mat.cls(spec)
